@@ -547,6 +547,34 @@ func (fr *Frame) appendBuiltin(st *State, site ssa.Instruction, cc *ssa.CallComm
 	// Sound abstraction: append always reallocates into a fresh object (the possible in-place
 	// write beyond len(dst) within cap is modelled separately as a frame note).
 	elem := cc.Args[0].Type().Underlying().(*types.Slice).Elem()
+	if fr.v.scalarSort(elem) == nil && !(dst.Len.IsConst() && src.Len.IsConst()) {
+		// slice of aggregates with symbolic length: contents not modelled; the result holds what dst held
+		// and what is appended (for the escape check)
+		o := fr.v.newObject(fr.fn.Name()+".append (contents not modelled)", cc.Args[0].Type(), false)
+		o.Unmodelled = true
+		o.ElemType = elem
+		if dst.Obj != nil {
+			fr.v.contains[o] = append(fr.v.contains[o], &SliceV{Obj: dst.Obj, Off: dst.Off, Len: dst.Len, Cap: dst.Cap})
+			if dst.Obj.Entry || dst.Obj.Escaped {
+				// the new backing array may be shared with dst's (append within capacity): treat as owned by dst's owner
+				o.Entry = dst.Obj.Entry
+			}
+		}
+		if src.Obj != nil {
+			if sa, ok := fr.v.content0(st, src.Obj).(*AggV); ok {
+				for _, e := range sa.Elems {
+					fr.v.contains[o] = append(fr.v.contains[o], e)
+					if o.Entry {
+						fr.v.markEscaped(e, st)
+					}
+				}
+			}
+		}
+		nl := F.Add(dst.Len, src.Len)
+		ncap := F.FreshRanged("appendcap", big.NewInt(0), bigMaxLen)
+		st.pc = F.And(st.pc, F.Le(nl, ncap))
+		return &SliceV{Obj: o, Off: F.I64(0), Len: nl, Cap: ncap}
+	}
 	o := fr.v.newObject(fr.fn.Name()+".append", cc.Args[0].Type(), false)
 	nl := F.Add(dst.Len, src.Len)
 	if dst.Len.IsConst() && src.Len.IsConst() && nl.K.Int64() <= 1024 {
@@ -686,4 +714,38 @@ func (fr *Frame) ifaceContract(st *State, site ssa.Instruction, iv *IfaceV, cc *
 	}
 	v.assume(fmt.Sprintf("assumed contract of interface method (%s).%s: %s", name, cc.Method.Name(), c.Assumed))
 	return result, true
+}
+
+// runDeferred executes a deferred call with the argument values captured at the defer statement.
+func (fr *Frame) runDeferred(st *State, dc *deferredCall) {
+	cc := dc.cc
+	if cc.IsInvoke() {
+		iv, ok := dc.fnv.(*IfaceV)
+		if !ok {
+			unsup("deferred invoke on %T", dc.fnv)
+		}
+		if iv.T != nil {
+			ms := fr.v.prog.MethodSets.MethodSet(iv.T)
+			sel := ms.Lookup(cc.Method.Pkg(), cc.Method.Name())
+			if sel == nil {
+				unsup("deferred method not found")
+			}
+			fr.callFn(st, dc.site, fr.v.prog.MethodValue(sel), append([]Value{iv.V}, dc.args...), nil)
+			return
+		}
+		fr.invokeAbstract(st, dc.site, iv, cc, dc.args)
+		return
+	}
+	switch f := cc.Value.(type) {
+	case *ssa.Function:
+		fr.callFn(st, dc.site, f, dc.args, nil)
+	case *ssa.Builtin:
+		fr.builtin(st, dc.site, f, cc, dc.args)
+	default:
+		fv, ok := dc.fnv.(*FuncV)
+		if !ok || fv.Fn == nil {
+			unsup("deferred indirect call")
+		}
+		fr.callFn(st, dc.site, fv.Fn, dc.args, fv.Bindings)
+	}
 }
